@@ -15,16 +15,19 @@ from hgmon.build import all_fids, build_program
 LEVEL = "fault_enumeration"
 RULE = (
     "programs (DAGs, gated programs) with a random subset of function nodes and gates cacheable, including one function "
-    "object shared by nodes with different output names or swapped input renames; histories of 3-10 runs over a pool "
+    "object shared by nodes with different output names or swapped input renames, a cached node that mutates one of "
+    "its arguments in place (every run gets fresh argument objects), a cached emitter whose signal is read as data; histories of 3-10 runs over a pool "
     "of 2-3 input vectors sharing ONE backend between a SyncRunner and an AsyncRunner; backends: InMemoryCache unbounded "
     "and max_size 1..4, DiskCache in a fresh directory. Oracles: every cached run equals the uncached run (status, "
     "values, executed set); a wrapping backend records every get/set: InMemoryCache answers must equal a 15-line "
-    "reference LRU fed the same history; after a hit no cacheable function is invoked before the next lookup (sync "
+    "reference LRU fed the same history; on the backends that never evict, a call (function, arguments as they were "
+    "at the call) completed in one run is not invoked again in a later run; after a hit no cacheable function is invoked before the next lookup (sync "
     "runs); key injectivity table key -> (function, arguments by parameter, output names); the dict served on a hit "
     "(associated to its node through CacheHitEvent) has exactly that node's outputs (+ the routing key for gates, which "
     "never reaches values). Disk faults, ENUMERATED for every stored entry x class: payload bit flip, truncation to 0 "
-    "and to half, payload replaced by another entry's payload, payload rewritten as a non-bytes object, signature bit "
-    "flip, signature type change, signature missing, payload missing, torn write on a fresh key and on an overwrite "
+    "and to half, payload replaced by another entry's payload, payload rewritten as a non-bytes object or as a natively stored "
+    "str/int/float/None/bytearray, signature bit flip, signature of another type / empty / shorter / non-ASCII, "
+    "signature missing, payload missing, torn write on a fresh key and on an overwrite "
     "(new payload + old signature); after each fault get() must not raise, must answer miss or the stored value, and "
     "no unpickling (the library's pickle.loads or the storage layer's pickle.load) may touch bytes that were not "
     "written by a genuine set() for that key; then the run history continues and must stay transparent. Non-trivial: "
@@ -153,6 +156,12 @@ def cacheable_spec(rng):
     for ns in spec["nodes"]:
         if ns["k"] in ("fn", "ifelse", "route") and (rng.random() < 0.65 or ns.pop("force_cache", False)):
             ns["cache"] = True
+    # a cacheable node that mutates one of its arguments in place: the entry belongs to the arguments of the CALL
+    if rng.random() < 0.5:
+        spec["nodes"].append({"k": "fn", "name": "drain", "params": [{"n": "mq"}, {"n": "mitem"}], "outs": ["drained"], "beh": ["append_mut", "mq", "mitem"], "cache": True})
+        for v in inputs_pool:
+            v.setdefault("mq", ["q0"])
+            v.setdefault("mitem", "it")
     # one function object shared by two nodes wired differently
     if rng.random() < 0.6:
         a, b = "sa", "sb"
@@ -219,15 +228,22 @@ def history(ctx, i, backend_kind):
     keytable = {}
     hits = 0
     try:
+        entered = []  # (fid, arguments as they were at the call) of cacheable functions, across the history
+        for f in cacheable:
+            if f != "shared/f":
+                rt.HOOK[f] = lambda kw, _f=f: entered.append((_f, repr(sorted(kw.items(), key=lambda kv: kv[0]))))
+        completed_calls = set()
         for r in range(rng.randint(3, 10)):
-            inputs = rng.choice(pool)
+            inputs = copy.deepcopy(rng.choice(pool))  # fresh objects per run: functions may mutate their arguments
             runner = rng.choice(["sync", "async"])
             ikey = repr(sorted(inputs.items(), key=lambda kv: kv[0]))
             if (ikey, runner) not in uncached:
-                u = run_once(built, inputs, runner, None)
+                u = run_once(built, copy.deepcopy(inputs), runner, None)
                 uncached[(ikey, runner)] = (u.status, u.values, set(u.rec.invocations()) - cacheable)
             sched = rt.Sched(default="rand", rng=rng) if runner == "async" and rng.random() < 0.5 else None
+            del entered[:]
             o = run_once(built, inputs, runner, spy, sched=sched, processors=[Rec("p")])
+            this_run = list(entered)
             label = f"run {r} ({runner})"
             c2 = {**case, "run": r, "inputs": inputs, "runner": runner}
             ctx.obs["cached_runs_compared"] += 1
@@ -239,6 +255,14 @@ def history(ctx, i, backend_kind):
                 diff = sorted(k for k in set(o.values or {}) | set(uvals or {}) if repr((o.values or {}).get(k, "<absent>")) != repr((uvals or {}).get(k, "<absent>")))
                 ctx.violation("C09:cached-differs-from-uncached", f"{label}: cached run {o.status} {o.exc!r} differs from the uncached run on {diff}: {core.short({k: (o.values or {}).get(k, '<absent>') for k in diff})} vs {core.short({k: (uvals or {}).get(k, '<absent>') for k in diff})}", c2)
                 break
+            # a completed call is not repeated while its entry is retained (backends that never evict)
+            if backend_kind in ("mem", "disk"):
+                again = [c for c in this_run if c in completed_calls]
+                ctx.obs["calls_checked_for_repetition"] += len(this_run)
+                if again:
+                    ctx.violation("C09:invoked-again-while-retained", f"{label}: {again[0][0]} was invoked again with arguments {again[0][1][:160]} although an earlier run completed that call and the {backend_kind} backend never evicts", c2)
+                    break
+                completed_calls.update(this_run)
             ran_nc = set(o.rec.invocations()) - cacheable
             if ran_nc != unc_ran:
                 ctx.violation("C09:routing-differs", f"{label}: non-cached nodes executed {sorted(ran_nc)} vs {sorted(unc_ran)} uncached (routing changed by the cache)", c2)
@@ -411,12 +435,12 @@ def disk_faults(ctx, dcache, spy, built, spec, pool, cacheable, case):
                 dc.delete(key + "-fresh")
                 dc.delete(key + "-fresh" + suffix)
     # the history continues after faults: still transparent
-    inputs = rng.choice(pool)
+    inputs = copy.deepcopy(rng.choice(pool))
     for key in sample_keys[:1]:
         b = bytearray(dc.get(key))
         b[0] ^= 0xFF
         dc.set(key, bytes(b))
-    u = run_once(built, inputs, "sync", None)
+    u = run_once(built, copy.deepcopy(inputs), "sync", None)
     o = run_once(built, inputs, "sync", spy)
     ctx.obs["cached_runs_compared"] += 1
     if o.exc is not None or o.values != u.values or o.status != u.status:
